@@ -806,7 +806,7 @@ func timerCancelledIs(want bool) core.Guard {
 // starts, a Refresh revives a cancelled timer, and an interval stopped between
 // its tick and its re-arm ticks forever (the former finding C19.2).
 func c19Cancelled(c *core.Ctx, R string) {
-	c.Rule(R, "cancellation protocol of utils.Timer: (a) Timer.cancelled is written only by Stop, to true, on every path, with Timer.mu held and in the same critical section as the runtime timer.Stop(); (b) every read of the flag is under Timer.mu; (c) on the tick arm of SetTimeout's goroutine the callback starts only on the not-cancelled edge; (d) on the tick arm of SetInterval's goroutine the re-arm (under the mutex) and `go fn()` are on the not-cancelled edge and the cancelled edge returns; (e) Refresh holds the mutex at its fired test, its restart and its Reset")
+	c.Rule(R, "cancellation protocol of utils.Timer: (a) Timer.cancelled is written only by Stop, to true, on every path, with Timer.mu held and in the same critical section as the runtime timer.Stop(); (b) every read of the flag is under Timer.mu; (c) on the tick arm of SetTimeout's goroutine the callback starts only on the not-cancelled edge and with the mutex released (Stop / Refresh from inside or beside the callback take it); (d) on the tick arm of SetInterval's goroutine the re-arm (under the mutex) and `go fn()` are on the not-cancelled edge and the cancelled edge returns; (e) Refresh holds the mutex at its fired test, its restart and its Reset")
 	const muName = "Timer.mu"
 	writes, reads := 0, 0
 	for _, u := range c.P.Units {
@@ -889,16 +889,26 @@ func c19Cancelled(c *core.Ctx, R string) {
 			if a.Chan != "C" {
 				continue
 			}
-			starts, guarded := 0, true
+			starts, guarded, released := 0, true, true
 			ast.Inspect(a.Clause, func(x ast.Node) bool {
 				ce, isC := x.(*ast.CallExpr)
 				if isC && isLocal(body.Info(), ce.Fun, fnParam) {
 					starts++
 					guarded = guarded && g.GuardedBy(g.LocOf(ce), notCancelled)
+					inline := true
+					for _, cl := range body.Calls() {
+						if cl.Expr == ce && cl.Go {
+							inline = false
+						}
+					}
+					if inline && g.HeldAt(g.LocOf(ce))[muName] {
+						released = false
+					}
 				}
 				return true
 			})
 			c.Check(R, ctor+"$fn/callback-only-when-not-cancelled", a.Clause.Pos(), starts == 1 && guarded, keyf("%d callback start(s) on the tick arm, each on the not-cancelled edge: %v", starts, guarded))
+			c.Check(R, ctor+"$fn/callback-runs-with-Timer.mu-released", a.Clause.Pos(), released, "a callback that runs on the timer goroutine runs without the timer's mutex: Stop and Refresh take it, and the library's own callbacks cancel their timer (the ping-timeout callback → OnClose → ClearTimeout of that very timer): with the mutex held the cancel never returns")
 			if ctor == setIntervalKey {
 				okRearm := false
 				for _, cl := range body.Calls() {
